@@ -288,6 +288,9 @@ def spaces(tier, seed):
                   bounds={'height<=': 2, 'L': [1, 2, 3], 'letters': [1, 2], 'coeffs': [1.0, 2.0], 'children<=': 2, 'inner_charges': [0, 1]}),
             Space('tree_pairs', core.chunked(_pair_cases([2, 3], [1.0, 2.0]), 500), run_case=run_tree_case, sig=sig,
                   bounds={'height<=': 1, 'L': [2, 3], 'ordered pairs of trees': True}),
+            Space('tree_pairs_near_equal', core.chunked(_pair_cases([2], [1.0, 1.0 + 2.0 ** -27]), 500), run_case=run_tree_case, sig=sig,
+                  bounds={'height<=': 1, 'L': [2], 'coeffs': [1.0, 1.0 + 2.0 ** -27],
+                          'what': 'coefficients that are equal only under a tolerant comparison (from_optrees ends with simplify)'}),
             Space('automata2', core.chunked(_aut_cases(2, EDGE_ALPH, [1, 2, 3, 4], [[0, 1], [0, 0]], parallel=True), 300), run_case=run_aut_case, sig=sig,
                   bounds={'nodes': 2, 'edge_alphabet': EDGE_ALPH + ['a+cb parallel', 'a+a parallel'], 'L': [1, 2, 3, 4], 'terminals': [[0, 1], [0, 0]]}),
             Space('automata3', core.chunked(_aut_cases(3, ['none', 'a', 'act'], [1, 2, 3, 4], [[0, 1]]), 500), run_case=run_aut_case, sig=sig,
@@ -301,6 +304,9 @@ def spaces(tier, seed):
                   bounds={'height<=': 2, 'L': [1, 2, 3, 4], 'letters': [1, 2], 'coeffs': [1.0, -1.0, 2.0], 'children<=': 2}),
             Space('tree_pairs', core.chunked(_pair_cases([2, 3, 4], [1.0, -1.0, 2.0]), 500), run_case=run_tree_case, sig=sig,
                   bounds={'height<=': 1, 'L': [2, 3, 4]}),
+            Space('tree_pairs_near_equal', core.chunked(_pair_cases([2], [1.0, 1.0 + 2.0 ** -27]), 500), run_case=run_tree_case, sig=sig,
+                  bounds={'height<=': 1, 'L': [2], 'coeffs': [1.0, 1.0 + 2.0 ** -27],
+                          'what': 'coefficients that are equal only under a tolerant comparison (from_optrees ends with simplify)'}),
             Space('automata2', core.chunked(_aut_cases(2, EDGE_ALPH, [1, 2, 3, 4, 5], [[0, 1], [0, 0]], parallel=True), 300), run_case=run_aut_case, sig=sig,
                   bounds={'nodes': 2, 'edge_alphabet': EDGE_ALPH, 'L': [1, 2, 3, 4, 5], 'terminals': [[0, 1], [0, 0]]}),
             Space('automata3', core.chunked(_aut_cases(3, EDGE_ALPH, [1, 2, 3], [[0, 1]]), 2000), run_case=run_aut_case, sig=sig,
